@@ -228,7 +228,7 @@ Proof.
         assert (Hcnt := nack_entries_count rest pid 0). cbn [length].
         split; [reflexivity|]. split; [|split; [lia|exact Hok]].
         rewrite Hl. now rewrite Nat.mul_comm, Nat.mod_mul by lia.
-      + replace ((pid + 0) mod 65536) with pid by lia. exact Hch. }
+      + exact Hch. }
   destruct Hparse as (Hp & Hm & Hle & Hok). split; [|auto].
   unfold rtpfb_parse.
   replace (Nat.ltb _ 8) with false by (symmetry; apply Nat.ltb_ge; rewrite !app_length, !length_be32; lia).
@@ -392,7 +392,7 @@ Proof.
     rewrite !u32ok_intro by lia. cbn [andb].
     assert (Hpack : exists a, match lost with [] => Ok [] | pid :: rest => nack_pack (nack_entries pid 0 rest) end = Ok a).
     { destruct lost as [|pid rest]; [eauto|]. destruct Hc as [Hpid Hch].
-      apply nack_entries_ok; [lia|lia|]. eapply nack_chain_range; eauto. }
+      apply nack_entries_ok; [lia|lia|]. eapply nack_exact_range; eauto. }
     destruct Hpack as [a Ha]. rewrite Ha. cbn [bind].
     destruct (rtpfb_parse_bytes fmt ssrc media lost a Hs Hm Hc Ha) as (Hp & Hmod & Hle & Hok).
     assert (Hlen : len (be32 ssrc ++ be32 media ++ a) = 8 + Z.of_nat (length a)).
